@@ -35,7 +35,7 @@ MANIFEST = {
 }
 
 BOUNDS = {"quick": {"count_full": "1..4", "count_adjdict": "1..8"}, "thorough": {"count_full": "1..4 (all edge types)", "count_adjdict": "1..12"}}
-TIME_BUDGET = {"quick": 300, "thorough": 2400}
+TIME_BUDGET = {"quick": 300, "thorough": 1200}
 STUBS = ["random.randint(a,b) -> fresh symbolic int in [a,b]", "random.sample(pop,k) -> ValueError if k<0 or k>len(pop); "
          "else k symbolic positions, pairwise distinct", "int(randint*connectivity) for symbolic connectivity -> arbitrary k in [0, r] (FP lemma)",
          "adjdict mode: adjlist.load_adj_dict -> recorder"]
